@@ -387,10 +387,11 @@ impl LogState {
                     line = line[pos..].to_string();
                 }
             }
-            // (A "record" that names nothing is a script's line, not one of ours.)
+            // (A "record" that names nothing -- or something no target can be called: a NUL
+            // byte -- is a script's line, not one of ours.)
             match Meta::parse(line.trim_end_matches('\n'))
                 .ok()
-                .filter(|g| !g.text().is_empty())
+                .filter(|g| !g.text().is_empty() && RedoPath::from_str(g.text()).is_ok())
                 .ok_or(())
             {
                 Ok(g) => {
@@ -516,7 +517,20 @@ impl LogState {
             // comes next (the caller's "resumed", the next target's "do") is glued to it,
             // no longer starts at the beginning of a line and is not recognised as a
             // record by anything that reads this output
-            println!("{}", String::from_utf8_lossy(&line_head));
+            // It is a line of this target like any other: when a nested target's lines were
+            // shown since this target's last one, it takes the "resumed" mark too (without
+            // it the line was shown among the nested target's lines).
+            if auto_bool_arg(&matches, "details").unwrap_or(true) {
+                if interrupted != 0 {
+                    let d = logs::reduce_depth();
+                    logs::meta("resumed", t.as_str(), None);
+                    logs::set_depth(d);
+                }
+                let mut head = String::from_utf8_lossy(&line_head).into_owned();
+                head.push('\n');
+                logs::write(&clean_line(&head));
+                lines_written += 1;
+            }
         }
         if t.as_str() != "-" {
             let last = self.depth.pop();
